@@ -135,6 +135,10 @@ impl VacancyTracker {
     }
 }
 
+// Verification hook (H1): module-private accessors for harnesses, kept outside the repository.
+#[cfg(any(kani, folo_verif))]
+include!(concat!(env!("FOLO_VERIF_DIR"), "/kani/infinity_pool/vacancy_tracker_hooks.rs"));
+
 #[cfg(test)]
 #[allow(
     clippy::multiple_unsafe_ops_per_block,
